@@ -3,7 +3,7 @@
    ExtrOcamlString (ascii -> char, string -> char list).  N, Z, positive, nat and byte stay Coq
    inductives.  No Extract Constant. *)
 From Coq Require Import Extraction ExtrOcamlBasic ExtrOcamlString NArith ZArith Strings.Byte.
-Require Import Bytes Schema Fields Codec Readers Session Discover Accept Client TLS Shutdown Instance InstanceProofs.
+Require Import Bytes Schema Fields Codec Readers Session Discover Accept Client TLS Shutdown Instance InstanceProofs UserTypes.
 Extraction Language OCaml.
-Extraction "model.ml" inst_wf_b Shutdown.step Shutdown.init Shutdown.run inst_send inst_discover_versions clife_run clife0 inst_server_tls inst_client_tls inst_server_tls_from inst_client_tls_from server_handshake_ok client_handshake_ok handle_discover serve_defaults elems serve inst_session default_versions inst_enc_top inst_cdec inst_cstream rden inst_dec_top inst_spec_decode inst_normalize inst_T type_codes_b
+Extraction "model.ml" inst_wf_b Shutdown.step Shutdown.init Shutdown.run inst_send inst_discover_versions clife_run clife0 inst_server_tls inst_client_tls inst_server_tls_from inst_client_tls_from server_handshake_ok client_handshake_ok handle_discover serve_defaults elems serve inst_session default_versions inst_enc_top inst_cdec inst_cstream rden inst_dec_top inst_spec_decode inst_normalize inst_T type_codes_b user_desc user_enc user_dec type_code tc_structure session_id
   Byte.to_N Byte.of_N N.of_nat N.to_nat Z.of_N Z.to_N Z.opp Z.add Z.mul N.add N.mul N.eqb N.leb Z.eqb Z.leb Z.ltb blen.
